@@ -1143,7 +1143,9 @@ def _deep_arm(f: Fn, r, arm: str, pred: str, obj: str, typ: str, container: str,
               'is_generic_union': {'Union'}}
 
     def origin_like(x):
-        return '__origin__' in f.alpha.text(x) or (isinstance(x, ast.Name) and any('__origin__' in norm(v) for v in assigned_from(f, x.id)))
+        t_ = f.alpha.text(x)
+        return '__origin__' in t_ or 'get_origin(' in t_ or (isinstance(x, ast.Name) and any(
+            '__origin__' in norm(v) or 'get_origin(' in norm(v) for v in assigned_from(f, x.id)))
 
     def arm_guard(g) -> bool:
         """the arm is selected by the util predicate, or by comparing the type's origin with exactly the predicate's family"""
@@ -1157,11 +1159,22 @@ def _deep_arm(f: Fn, r, arm: str, pred: str, obj: str, typ: str, container: str,
     region = [n for n in f.walk() if isinstance(n, (ast.Return,)) and any(p and arm_guard(g) for g, p in f.guards(n))]
     # how the element types may be spelt: generic_type_args(T)[i], or X[i] with X bound to T.__args__
     arg_vars = {n_.targets[0].id for n_ in f.walk() if isinstance(n_, ast.Assign) and len(n_.targets) == 1 and isinstance(n_.targets[0], ast.Name)
-                and norm(n_.value) == '%s.__args__' % typ}
+                and norm(n_.value) in ('%s.__args__' % typ, 'get_args(%s)' % typ, 'generic_type_args(%s)' % typ)}
+    # ... or unpacked: `key_type, value_type = <the arguments>`
+    unpacked = {}
+    for n_ in f.walk():
+        if isinstance(n_, ast.Assign) and len(n_.targets) == 1 and isinstance(n_.targets[0], ast.Tuple) \
+                and all(isinstance(x, ast.Name) for x in n_.targets[0].elts) \
+                and (norm(n_.value) in ('%s.__args__' % typ, 'get_args(%s)' % typ, 'generic_type_args(%s)' % typ)
+                     or (isinstance(n_.value, ast.Name) and n_.value.id in arg_vars)):
+            for i_, x in enumerate(n_.targets[0].elts):
+                unpacked[x.id] = i_
 
     def elem_type_in(txt: str, idx: int) -> bool:
-        return 'generic_type_args(%s)[%d]' % (typ, idx) in txt or '%s.__args__[%d]' % (typ, idx) in txt or any(
-            '%s[%d]' % (v_, idx) in txt for v_ in arg_vars)
+        import re as _re
+        return 'generic_type_args(%s)[%d]' % (typ, idx) in txt or '%s.__args__[%d]' % (typ, idx) in txt \
+            or 'get_args(%s)[%d]' % (typ, idx) in txt or any('%s[%d]' % (v_, idx) in txt for v_ in arg_vars) \
+            or any(i_ == idx and _re.search(r'\b%s\b' % _re.escape(nm), txt) for nm, i_ in unpacked.items())
     key = f.key('deep-check:%s' % arm)
     if not region:
         r.fail(key, f.loc(), '__type_matches has no arm for generic %s types: a constructed %s is accepted without looking at its '
@@ -1252,7 +1265,8 @@ def r01_6_deep_recheck(ctx, rid='R01.6'):
             return True
         if isinstance(g, ast.Compare) and len(g.ops) == 1 and isinstance(g.ops[0], (ast.Is, ast.Eq)) and norm(g.comparators[0]).split('.')[-1] == 'Union':
             l_ = g.left
-            return '__origin__' in tm.alpha.text(l_) or (isinstance(l_, ast.Name) and any('__origin__' in norm(v_) for v_ in assigned_from(tm, l_.id)))
+            return '__origin__' in tm.alpha.text(l_) or 'get_origin(' in tm.alpha.text(l_) or (isinstance(l_, ast.Name) and any(
+                '__origin__' in norm(v_) or 'get_origin(' in norm(v_) for v_ in assigned_from(tm, l_.id)))
         return False
     ur = [n for n in tm.returns() if any(p and _union_guard(g) for g, p in tm.guards(n))]
     okU = bool(ur)
@@ -2384,14 +2398,17 @@ def handler_converts(f: Fn, h: ast.ExceptHandler) -> Tuple[bool, str]:
     return True, 'ok'
 
 
-def r10_hooks(ctx):
+def r10_hooks(ctx, ids=('R10.0', 'R10.1', 'R10.3'), only_hooks=None):
     P = ctx.P
-    r0 = ctx.rule('R10.0', 'each hook is called on every path on which its class defines it', floor=5)
-    r1 = ctx.rule('R10.1', 'a hook is called only under the guard "<hook>" in X.__dict__ for the very class X it is called on '
-                           '(hasattr/getattr also see inherited and mix-in definitions)', floor=5)
-    r3 = ctx.rule('R10.3', 'a hook call site is not inside a loop, and the seasoning entry points have exactly one external '
-                           'caller, outside any loop', floor=5)
+    fl = 5 if only_hooks is None else 1
+    r0 = ctx.rule(ids[0], 'each hook is called on every path on which its class defines it', floor=fl)
+    r1 = ctx.rule(ids[1], 'a hook is called only under the guard "<hook>" in X.__dict__ for the very class X it is called on '
+                           '(hasattr/getattr also see inherited and mix-in definitions)', floor=fl)
+    r3 = ctx.rule(ids[2], 'a hook call site is not inside a loop, and the seasoning entry points have exactly one external '
+                           'caller, outside any loop', floor=fl)
     for key, hook in HOOK_SITES:
+        if only_hooks is not None and hook not in only_hooks:
+            continue
         f = fn(P, key)
         calls = hook_calls(f, hook)
         if not calls:
